@@ -72,11 +72,17 @@ func (r *Run) reflectCall(st *State, fr *Frame, name string, recv Val, args []Va
 	e.declSort(vs)
 	done := func(v ...Val) []*State {
 		e.handled = true
+		for i, x := range v {
+			st.Ghost[fmt.Sprintf("ires:%s:%d", name, i)] = x // ilast("(reflect.Value).Call", i)
+		}
 		r.setResult(st, fr, dst, v)
 		r.afterCall(st, fr, name, args, v, sig, in)
 		return nil
 	}
 	st.assume(Eq(App(SInt, e.namedFun("rt_kind", []Sort{SAny}, SInt), NilOf(SAny)), IntLit(0)))
+	// the zero reflect.Value is the invalid one
+	zeroV := T{e.namedFun("zero_"+sanitize(string(vs)), nil, vs), vs}
+	st.assume(Not(App(SBool, e.namedFun("rv_valid", []Sort{vs}, SBool), zeroV)))
 	uf := func(fn string, res Sort, a ...T) T {
 		var so []Sort
 		for _, x := range a {
